@@ -311,6 +311,10 @@ fn shift(e: &E, fsheet: usize, ed: &EditOp) -> E {
 
 /// `Sheet1!A1` and `'Sheet1'!A1` are the same address: compare with the qualifier unquoted
 fn canon_addr(a: &str) -> String {
+    // a list of areas (no sheet name of this harness contains a comma)
+    if a.contains(',') {
+        return a.split(',').map(canon_addr).collect::<Vec<_>>().join(",");
+    }
     match a.rfind('!') {
         Some(p) => {
             let (q, r) = (&a[..p], &a[p + 1..]);
@@ -404,6 +408,40 @@ pub fn gen(tier: Tier, seed: u64) -> Vec<String> {
             edits.iter().map(edit_txt).collect::<Vec<_>>().join(";"),
             exp.join(","),
             if refsheet == nsheet { "refs-own-sheet" } else { "refs-other-sheet" }
+        ));
+    }
+    // defined names with TWO areas on DIFFERENT sheets (each area follows edits of the sheet it refers to, wherever it
+    // stands in the list); inserts only: what a name does when one of several areas is deleted is not generated
+    for _ in 0..(if thorough { 4_000 } else { 200 }) {
+        let mut refs = vec![];
+        let first = rng.below(3) as usize;
+        for k in 0..2usize {
+            let mut r = gen_ref(&mut rng, &plain, true);
+            r.area = match r.area {
+                Area::Cols(a, b) => Area::Range(a.clone(), Part { n: 2, abs: true }, b, Part { n: 9, abs: true }),
+                Area::Rows(a, b) => Area::Range(Part { n: 2, abs: true }, a, Part { n: 5, abs: true }, b),
+                x => x,
+            };
+            let sh = (first + k * (1 + rng.below(2) as usize)) % 3;
+            r.sheet = Some(Qual { name: SHEETS[sh].to_string(), quoted: sh != 0 });
+            refs.push(r);
+        }
+        let nsheet = rng.below(3) as usize;
+        let edits: Vec<EditOp> = (0..3).map(|_| EditOp { insert: true, ..gen_edit(&mut rng, false) }).collect();
+        let mut es: Vec<E> = refs.iter().map(|r| E::Ref(r.clone())).collect();
+        let mut exp = vec![];
+        for ed in &edits {
+            es = es.iter().map(|e| shift(e, nsheet, ed)).collect();
+            exp.push(hex(&es.iter().map(|e| print(e, false)).collect::<Vec<_>>().join(",")));
+        }
+        let level = if rng.chance(1, 2) { "wb" } else { "ws" };
+        v.push(format!(
+            "c08 dn {} {} {} {} {} - refs-two-sheets",
+            level,
+            nsheet,
+            hex(&refs.iter().map(ref_txt).collect::<Vec<_>>().join(",")),
+            edits.iter().map(edit_txt).collect::<Vec<_>>().join(";"),
+            exp.join(",")
         ));
     }
     // malformed formulas through the edit path: correspondence only
